@@ -793,6 +793,11 @@ pub fn btor2_values(rep: &mut Report) {
             let bytes = to_bytes(|w| line.write_into(w));
             rep.inputs += 1;
             rep.nontrivial += 1;
+            // the third way of writing a line: its Display form is the written line without the line break
+            let shown = format!("{}\n", line);
+            if shown.as_bytes() != &bytes[..] {
+                rep.fail("C03 the Display form of a BTOR2 line is the line that write_into writes", format!("{} constant {:?}", ["binary", "hex", "decimal"][kind], s), vec!["value".into(), kind.to_string(), s.clone()], format!("write_into: {:?}, Display: {:?}", show(&bytes), shown));
+            }
             let o = run(f, &bytes, ONE_SHOT);
             rep.runs += 1;
             if o.end != End::Clean || o.items != vec![format!("{:?}", line)] {
